@@ -34,7 +34,7 @@ def decide_states(ai, fi, stmt, mk_obls, rule, role, scope=(-3, 8), extra_facts=
                 return violation(rule, fi, role,
                                  "obligation `%s` i.e. %r >= 0 is not implied by the guards on path %s" % (
                                      label, e, fmt_trace(st.trace)),
-                                 stmt, witness={"assignment": wit, "obligation": label,
+                                 stmt, semantic=True, witness={"assignment": wit, "obligation": label,
                                                 "guards": [repr(g) + " >= 0" for g in relevant_guards(st.G, e)]})
             if verdict == "UNKNOWN":
                 return unrecognised(rule, fi, role, "obligation `%s` neither proved nor refuted within the search budget" % label, stmt)
@@ -128,7 +128,7 @@ def pure_params(repo, fi, params, rule="R-PURE", why=""):
             out.append(violation(rule, fi, "parameter `%s` is never written in place" % p,
                                  "%s reaches caller-owned `%s`: `%s`%s" % (
                                      k, p, unparse(n)[:90], " (+%d more)" % (len(hits) - 1) if len(hits) > 1 else ""),
-                                 n, witness={"sinks": ["%s: %s" % (fi.line(x), kk) for x, kk in hits[:5]]}))
+                                 n, semantic=True, witness={"sinks": ["%s: %s" % (fi.line(x), kk) for x, kk in hits[:5]]}))
         else:
             out.append(holds(rule, fi, "parameter `%s` is never written in place" % p,
                              "alias analysis: no in-place sink (subscript store, op=, method_(), out=, writing callee) "
@@ -371,13 +371,13 @@ def module_state_rule(repo, modshort, rule="STATE"):
                 if missing:
                     out.append(violation(rule, f, role, "`%s[...]` memoises a value that depends on parameter(s) %s but the key `%s` ignores them: a later "
                                          "call with different %s gets the stale entry" % (n.id, missing, unparse(p.slice)[:50], missing[0]), st,
-                                         witness={"cache": n.id, "value_depends_on": sorted(vdeps), "key_depends_on": sorted(kdeps)}))
+                                         semantic=True, witness={"cache": n.id, "value_depends_on": sorted(vdeps), "key_depends_on": sorted(kdeps)}))
                     continue
                 arrays = [q for q in sorted(vdeps) if not _scalar_param(f, q)]
                 weak = [q for q in arrays if not any(d in ktext for d in DIGESTS)]
                 if weak:
                     out.append(violation(rule, f, role, "`%s[...]` is keyed by names / shapes of `%s` only (no content digest): same-named inputs with different "
-                                         "values share an entry" % (n.id, weak[0]), st, witness={"cache": n.id, "key": ktext[:120]}))
+                                         "values share an entry" % (n.id, weak[0]), st, semantic=True, witness={"cache": n.id, "key": ktext[:120]}))
                     continue
                 out.append(holds(rule, f, role, "cache `%s`: key covers %s" % (n.id, sorted(vdeps)), st))
         elif isinstance(p, ast.Attribute) and p.attr in ("append", "extend", "update", "setdefault", "add", "insert", "pop", "clear"):
@@ -475,7 +475,7 @@ def loop_headers_rule(fi, expected, rule, role):
         diffs = [(a - b) for a, b in zip(rg, re_)]
         if all(d.is_const() for d in diffs):
             return [violation(rule, fi, role, "loop runs over `%s` instead of `%s`: %s" % (g, e, "an element is skipped" if (diffs[1].c < 0 or diffs[0].c > 0) else "an element outside the confirmed range is visited"), l,
-                              witness={"got": g, "confirmed": e})]
+                              semantic=True, witness={"got": g, "confirmed": e})]
         return [unrecognised(rule, fi, role, "loop `%s` (confirmed: `%s`)" % (g, e), l)]
     return [holds(rule, fi, role, "%d loop headers equal the confirmed ranges as linear forms" % len(got), fi.node, nontrivial=False)]
 
@@ -498,7 +498,7 @@ def block_value_rule(fi, stmts, name, expected_src, rule, role, node=None, named
         return holds(rule, fi, role, "%s == %s" % (name, expected_src), node)
     if res == "DIFFERENT":
         return violation(rule, fi, role, "`%s` evaluates to %s, expected %s" % (name, canon(got)[:120], expected_src), node,
-                         witness={"got": canon(got)[:200], "expected": canon(exp)[:200]})
+                         semantic=True, witness={"got": canon(got)[:200], "expected": canon(exp)[:200]})
     return unrecognised(rule, fi, role, "`%s` = %s (outside the arithmetic fragment)" % (name, canon(got)[:120]), node)
 
 
